@@ -77,7 +77,16 @@ func (b *Body) Clear() {
 }
 
 func (b *Body) AppendUnstructuredTokens(ts Tokens) {
-	b.leaveSingleLineForm()
+	for _, tok := range ts {
+		// Only tokens that end a line require a block written in the
+		// single-line form to be converted first; others can simply follow
+		// its argument.
+		if tok.Type == hclsyntax.TokenNewline ||
+			(tok.Type == hclsyntax.TokenComment && len(tok.Bytes) > 0 && tok.Bytes[len(tok.Bytes)-1] == '\n') {
+			b.leaveSingleLineForm()
+			break
+		}
+	}
 	b.children.Append(ts)
 }
 
